@@ -192,7 +192,93 @@ func loadedField(v ssa.Value) (field string, base ssa.Value, ok bool) {
 	if f, isF := v.(*ssa.Field); isF {
 		return fieldRefOfField(f), f.X, true
 	}
+	// a call of a trivial locked getter — func (r *T) get() F { r.mu.RLock(); defer r.mu.RUnlock(); return r.f } — reads r.f
+	if call, isC := v.(*ssa.Call); isC {
+		if fn := calleeOf(&call.Call).Static; fn != nil && len(call.Call.Args) == 1 {
+			if f, isG := trivialGetter(fn); isG {
+				return f, call.Call.Args[0], true
+			}
+		}
+	}
 	return "", nil, false
+}
+
+var getterCache = map[*ssa.Function]string{}
+
+// trivialGetter: fn's body only takes/releases sync locks of its receiver and returns one field of the receiver.
+func trivialGetter(fn *ssa.Function) (string, bool) {
+	if f, ok := getterCache[fn]; ok {
+		return f, f != ""
+	}
+	getterCache[fn] = ""
+	if len(fn.Blocks) == 0 || len(fn.Params) != 1 || fn.Signature.Results().Len() != 1 {
+		return "", false
+	}
+	recv := fn.Params[0]
+	var field *ssa.FieldAddr
+	isSyncType := func(t types.Type) bool {
+		if p, ok := t.(*types.Pointer); ok {
+			t = p.Elem()
+		}
+		n, ok := t.(*types.Named)
+		return ok && n.Obj().Pkg() != nil && n.Obj().Pkg().Path() == "sync"
+	}
+	for _, b := range fn.Blocks {
+		for _, in := range b.Instrs {
+			switch x := in.(type) {
+			case *ssa.FieldAddr:
+				if x.X != ssa.Value(recv) {
+					return "", false
+				}
+				if isSyncType(x.Type()) {
+					continue
+				}
+				if field != nil && fieldRefOfAddr(field) != fieldRefOfAddr(x) {
+					return "", false
+				}
+				field = x
+			case *ssa.Alloc, *ssa.RunDefers, *ssa.Jump, *ssa.Return, *ssa.DebugRef:
+			case *ssa.UnOp:
+				if x.Op != token.MUL {
+					return "", false
+				}
+			case *ssa.Store:
+				if _, isAl := x.Addr.(*ssa.Alloc); !isAl {
+					return "", false
+				}
+			case *ssa.Call:
+				if c := calleeOf(&x.Call).Static; c == nil || c.Pkg == nil || c.Pkg.Pkg.Path() != "sync" {
+					return "", false
+				}
+			case *ssa.Defer:
+				if c := calleeOf(&x.Call).Static; c == nil || c.Pkg == nil || c.Pkg.Pkg.Path() != "sync" {
+					return "", false
+				}
+			default:
+				return "", false
+			}
+		}
+	}
+	if field == nil {
+		return "", false
+	}
+	// the (non-recover) return value originates from the load of that field only
+	for _, in := range fn.Blocks[0].Instrs {
+		if r, ok := in.(*ssa.Return); ok {
+			for _, o := range origins(r.Results[0]) {
+				u, isU := o.Val.(*ssa.UnOp)
+				if !isU {
+					return "", false
+				}
+				if fa, isFA := u.X.(*ssa.FieldAddr); !isFA || fieldRefOfAddr(fa) != fieldRefOfAddr(field) {
+					return "", false
+				}
+			}
+			getterCache[fn] = fieldRefOfAddr(field)
+			return getterCache[fn], true
+		}
+	}
+	return "", false
 }
 
 func isLoadOf(v ssa.Value, field string) bool {
